@@ -17,8 +17,8 @@ pub fn gaps() -> Vec<u64> {
     g
 }
 
-pub const LONG_LENS_QUICK: [usize; 9] = [19, 20, 21, 38, 39, 40, 100, 589, 591];
-pub const LONG_LENS_THOROUGH: [usize; 13] = [19, 20, 21, 38, 39, 40, 100, 300, 589, 590, 591, 1000, 3000];
+pub const LONG_LENS_QUICK: [usize; 11] = [19, 20, 21, 38, 39, 40, 100, 257, 589, 591, 1025];
+pub const LONG_LENS_THOROUGH: [usize; 20] = [19, 20, 21, 38, 39, 40, 100, 255, 256, 257, 300, 589, 590, 591, 1000, 1023, 1024, 1025, 3000, 4097];
 
 /// digit-string patterns of a given length: 9…9, 10…0, 10…01, 49…9, 50…0, 50…01, filler
 pub fn patterns(len: usize, seed: u64) -> Vec<(&'static str, String)> {
@@ -90,7 +90,18 @@ pub fn sparse_tails(lens: &[usize]) -> Vec<String> {
     let mut out = vec![];
     for &l in lens {
         out.push("0".repeat(l));
-        for j in 0..l {
+        // every position for tails up to 72 digits; for longer tails the positions next to either end, around
+        // machine-word multiples and the middle
+        let positions: Vec<usize> = if l <= 72 {
+            (0..l).collect()
+        } else {
+            let mut p: Vec<usize> = vec![0, 1, 2, 7, 8, 9, 15, 16, 17, 18, 19, 20, 31, 32, 63, 64, l / 2, l - 20, l - 17, l - 16, l - 9, l - 8, l - 2, l - 1];
+            p.retain(|x| *x < l);
+            p.sort();
+            p.dedup();
+            p
+        };
+        for j in positions {
             for d in ['1', '9'] {
                 let mut t: Vec<char> = "0".repeat(l).chars().collect();
                 t[j] = d;
@@ -114,6 +125,21 @@ pub fn two_five_ints(az: &[u32], bz: &[u32], ms: &[i64]) -> Vec<(u32, u32, BigIn
             for &m in ms {
                 out.push((a, b, &v * m));
             }
+        }
+    }
+    out
+}
+
+/// Decimal spellings of the machine-word limits 2^31, 2^32, 2^63, 2^64, 2^127, 2^128 (and 10^19, 10^38)
+/// plus offsets -2..=9: digit strings on which word-at-a-time digit accumulation overflows
+pub fn limit_spellings() -> Vec<String> {
+    let mut out = vec![];
+    let mut bases: Vec<BigInt> = [31usize, 32, 53, 63, 64, 96, 127, 128, 192, 256].iter().map(|e| BigInt::from(1) << *e).collect();
+    bases.push(spec::pow10(19));
+    bases.push(spec::pow10(38));
+    for b in bases {
+        for d in -2i64..=9 {
+            out.push((&b + d).to_string());
         }
     }
     out
